@@ -5,7 +5,7 @@ from vlib.common import hexs
 from vlib.decsuite import D, Sop, parse_tok, cls_kind
 
 THEOREMS = ["C05_error_changes_nothing", "C05_failed_call_is_invisible", "C05_more_data_same_result"]
-BRIDGES = ["BridgePState", "BridgePLoop", "BridgePNextLoop", "BridgePNext"]
+BRIDGES = ["BridgePState", "BridgePLoop", "BridgePNextLoop", "BridgePNext", "BridgePReach"]
 
 
 def failing_inputs(rng, mode, w, h):
